@@ -142,7 +142,7 @@ def clean_out(V, dtype):
 @unit('C11', 'determine_indices_of_peaks_for_cleaned_array', functions=[PK + 'determine_indices_of_peaks_for_cleaned_array',
                                                                          PK + 'determine_indices_of_peaks_for_cleaned'],
       cases=[dict(fn='determine_indices_of_peaks_for_cleaned_array'), dict(fn='determine_indices_of_peaks_for_cleaned')],
-      modes=('unbounded',))
+      modes=('unbounded',), opts=dict(no_resolve=True))
 def peaks_cleaned(V, fn):
     st = {}
 
